@@ -151,12 +151,12 @@ void harness(void)
             env_tx_n = 0; sdo_wr(0x1A00, 0, 1, MAP2N); sdo_rsp = 1;
             CHECK(env_tx_n == 1 && env_tx[0].Data[0] == 0x60, "mapping count accepted");
             map = map2; mapn = MAP2N;
-        } else if ((o == 'O') || (o == 'Q') || (o == 'o')) {
+        } else if ((o == 'O') || (o == 'Q') || (o == 'o') || (o == 'H')) {
             /* 'O'/'Q': first object of the ORIGINAL mapping, 'o': first object of the second mapping */
             uint16_t idx = (uint16_t)(((o == 'o') ? map2[0] : map0[0]) >> 16);
             uint8_t  mapped = 0;
             uint32_t old = obj_val(idx);
-            uint32_t nv  = (o == 'Q') ? old : (old ^ (1u + (vals[s] & 0x7Fu)));
+            uint32_t nv  = (o == 'Q') ? old : (o == 'H') ? (old ^ 0x00010000u) : (old ^ (1u + (vals[s] & 0x7Fu)));   /* 'H': only the upper half of a 32-bit object changes */
             if      (idx == 0x2103) { (void)CODictWrByte(&node.Dict, CO_DEV(idx, 0), (uint8_t)nv); }
             else if (idx == 0x2104) { (void)CODictWrWord(&node.Dict, CO_DEV(idx, 0), (uint16_t)nv); }
             else if (idx == 0x2100) { (void)CODictWrByte(&node.Dict, CO_DEV(idx, 0), (uint8_t)nv); }
